@@ -316,13 +316,13 @@ class CtlWriter:
                 for line in block:
                     write_line('{} {}'.format(prefix, line))
 
-    def _write_lines(self, lines, ctl=None, address=None, grouped=False):
+    def _write_lines(self, lines, ctl=None, address=None, grouped=False, final=True):
         if ctl:
             write_line('{} {}'.format(ctl, address))
         if grouped:
             for index, group in enumerate(lines):
                 for line_no, line in enumerate(group):
-                    if line_no and index < len(lines) - 1:
+                    if line_no and (index < len(lines) - 1 or not final):
                         write_line((': ' + line).rstrip())
                     else:
                         write_line(('. ' + line).rstrip())
@@ -531,10 +531,11 @@ class CtlWriter:
             write_line('{} {}{} {}'.format(ctl, addr_str, lengths, comment).rstrip())
         else:
             # Remove redundant trailing blank lines
-            min_comments = min(len(instructions) - 1, 1)
+            num_groups = len(comment)
+            min_comments = min(num_groups - 1, 1)
             while len(comment) > min_comments and comment[-1] == ['']:
                 comment.pop()
-            self._write_lines(comment, ctl, addr_str + lengths, True)
+            self._write_lines(comment, ctl, addr_str + lengths, True, len(comment) == num_groups)
 
 class SkoolParser:
     def __init__(self, skoolfile, preserve_base, assembler, min_address, max_address, keep_lines):
